@@ -43,8 +43,8 @@ PLANS = {
                       ("book", "toggle", 900, 60, []), ("book", "mixed", 600, 80, ["--levels", "1,3,10"]), ("book", "unusual", 600, 60, [])],
             "thorough": [("enum", "d4", 16, 4, []), ("book", "unusual", 4000, 100, []), ("book", "modify", 10000, 80, ["--levels", "5"]), ("book", "modify", 4000, 120, ["--prices", "2"]),
                          ("book", "toggle", 2000, 100, []), ("book", "mixed", 3000, 120, ["--levels", "1,3,10"])]},
-    "C07": {"quick": [("book", "reload", 900, 60, ["--levels", "1,10"]), ("market", "reload", 300, 80, ["--levels", "1,10"]), ("book", "mixed", 600, 80, ["--levels", "1,3,10"])],
-            "thorough": [("book", "reload", 6000, 120, ["--levels", "1,3,10,24"]), ("market", "reload", 2000, 120, ["--levels", "1,3,10"]), ("book", "mixed", 3000, 120, ["--levels", "1,3,10"])]},
+    "C07": {"quick": [("book", "unusual", 600, 60, ["--levels", "1,10"]), ("book", "reload", 900, 60, ["--levels", "1,10"]), ("market", "reload", 300, 80, ["--levels", "1,10"]), ("book", "mixed", 600, 80, ["--levels", "1,3,10"])],
+            "thorough": [("book", "unusual", 4000, 100, ["--levels", "1,3,10"]), ("book", "reload", 6000, 120, ["--levels", "1,3,10,24"]), ("market", "reload", 2000, 120, ["--levels", "1,3,10"]), ("book", "mixed", 3000, 120, ["--levels", "1,3,10"])]},
     "C08": {"quick": [("env", "plain", 900, 8, ["--levels", "3"]), ("menv", "plain", 600, 8, ["--levels", "3"]),
                       ("env", "toggle", 300, 8, []), ("menv", "toggle", 300, 8, []), ("env", "overfull", 300, 8, []), ("menv", "overfull", 300, 8, []),
                       ("env", "unusual", 300, 8, []), ("menv", "unusual", 300, 8, []), ("env", "long", 16, 250, []), ("menv", "long", 16, 250, [])],
@@ -69,6 +69,7 @@ PLANS = {
             "thorough": [("book", "unusual", 4000, 100, []), ("enum", "d3toggleties", 4, 3, ["--toggle", "1", "--ties", "1", "--profile", "toggle"]), ("enum", "d3toggle", 4, 3, ["--toggle", "1"]), ("book", "toggle", 12000, 120, []), ("book", "toggle", 2000, 100, ["--prices", "2"]),
                          ("market", "plain", 2000, 100, []), ("env", "toggle", 2000, 12, []), ("menv", "toggle", 2000, 12, []), ("book", "mixed", 3000, 120, ["--levels", "1,3,10"])]},
     "C14": {"quick": [("market", "plain", 900, 80, ["--levels", "1,3,10"]), ("market", "malformed", 450, 60, []), ("menv", "plain", 600, 8, ["--assets", "1,2,3,4"]),
+                      ("menv", "unusual", 300, 8, ["--assets", "2,3,4"]),
                       ("menv", "toggle", 300, 8, ["--assets", "2,3,4"])],
             "thorough": [("market", "plain", 5000, 200, ["--levels", "1,3,10"]), ("menv", "plain", 4000, 12, ["--assets", "1,2,3,4"]),
                          ("menv", "toggle", 2000, 12, ["--assets", "2,3,4"]), ("market", "reload", 1000, 100, []), ("market", "malformed", 2000, 100, [])]},
@@ -552,7 +553,7 @@ SPECS = {
                 k=lambda f: f.kind == "K" and bool(f.fields & {"orders.status", "orders.times", "orders.ident", "t"})),
     "C05": dict(modules=["Bourse.Props.C05"],
                 a=lambda f: (f.profile == "ties" and ((f.kind == "R" and bool(f.fields)) or (f.kind == "A" and f.audit in ("C02", "C03", "C04", "C06", "C07"))))
-                            or (f.profile == "overfull" and f.kind == "A"),
+                            or (f.profile == "overfull" and f.kind in ("A", "R")),
                 k=lambda f: f.profile in ("ties", "overfull") and f.kind == "K"),
     "C06": dict(modules=["Bourse.Props.C06"],
                 a=lambda f: (f.kind == "A" and f.audit == "C06") or (f.kind == "R" and bool(cfields(f)) and f.profile in ("modify", "toggle", "mixed", "unusual"))
@@ -564,10 +565,13 @@ SPECS = {
                 a=lambda f: f.kind == "A" and f.audit == "C07",
                 k=lambda f: f.kind == "K" and f.op.startswith("reload")),
     "C08": dict(modules=["Bourse.Props.C08"],
-                a=lambda f: is_env(f) and f.kind == "A" and (f.audit in ("C08", "ORD") or (f.audit == "SH" and f.op == "step")),
+                a=lambda f: is_env(f) and ((f.kind == "A" and (f.audit in ("C08", "ORD") or (f.audit == "SH" and f.op == "step")))
+                                           or (f.kind == "R" and f.op == "step")),
                 k=lambda f: is_env(f) and f.kind == "K" and f.op == "step"),
     "C10": dict(modules=["Bourse.Props.C10"],
-                a=lambda f: is_env(f) and f.kind == "A" and (f.audit == "C10" or (f.audit == "SH" and f.op != "step")),
+                # a refused submission that leaves a trace is a submission that changed something observable
+                a=lambda f: is_env(f) and f.kind == "A" and (f.audit == "C10" or (f.audit == "SH" and f.op != "step")
+                                                             or (f.audit == "C12" and "rejected_submission_no_trace" in f.fields)),
                 k=lambda f: is_env(f) and f.kind == "K" and (f.op != "step" or "cached_l2" in f.fields)),
     "C11": dict(modules=["Bourse.Props.C11"],
                 a=lambda f: is_env(f) and f.kind == "A" and f.audit == "C11",
